@@ -86,7 +86,10 @@ def gen_cases(tier: str, seed: int):
             else:
                 name = r.choice(["tmp1", "Tmp2", '"tmp3"', '"Mixed Case"', "tmp_4"])
                 stmts.append({"k": "ddl", "kind": r.choice(["table", "view", "schema", "table_as"]), "name": name})
-        yield core.jsonable({"t_rows": t_rows, "s_rows": s_rows, "stmts": stmts})
+        # how the statements name their tables: plainly from the tables' own schema, or qualified (also through IDENTIFIER())
+        # from a session whose current schema holds decoy tables of the same names
+        via = r.choice(["plain", "plain", "S1.T", "DB1.S1.T", "IDENTIFIER('S1.T')", "IDENTIFIER('DB1.S1.T')", "IDENTIFIER('db1.s1.t')"])
+        yield core.jsonable({"t_rows": t_rows, "s_rows": s_rows, "stmts": stmts, "via": via})
 
 
 _state: dict[str, Any] = {}
@@ -95,7 +98,12 @@ _state: dict[str, Any] = {}
 def setup_worker(env: core.Env) -> None:
     fs = core.new_fs()
     conn = fs.connect("db1", "s1")
-    _state.update(fs=fs, conn=conn, raw=core.raw_root(fs).cursor())
+    conn2 = fs.connect("db1", "s2")
+    c2 = conn2.cursor()
+    for name in ("T", "SRC", "BY"):
+        c2.execute(f"CREATE TABLE {name} ({models.DDL_COLS})")
+        c2.execute(f"INSERT INTO {name} (A) VALUES (424242)")
+    _state.update(fs=fs, conn=conn, conn2=conn2, raw=core.raw_root(fs).cursor())
 
 
 def _values_sql(rows: list, cols: list) -> str:
@@ -123,6 +131,18 @@ def run_case(case: dict, env: core.Env) -> None:
     src = [list(r) for r in case["s_rows"]]
     by_ms = models.multiset(case["s_rows"])
     compared = 0
+
+    via = case.get("via", "plain")
+    env.cover("target_spelling", via)
+    if via != "plain":
+        dml_cur = _state["conn2"].cursor()
+
+    def spell(sql: str) -> str:
+        """The statement as the session in schema S2 has to write it."""
+        if via == "plain":
+            return sql
+        import re as _re
+        return _re.sub(r"\bSRC\b", "DB1.S1.SRC", _re.sub(r"(?<![.'])\bT\b(?!')", via, sql))
 
     for si, st in enumerate(case["stmts"]):
         k = st["k"]
@@ -198,9 +218,10 @@ def run_case(case: dict, env: core.Env) -> None:
         env.cover("cmd_x_affected", f"{cmd}/{acls}")
         if not case["t_rows"] and si == 0:
             env.cover("empty_table", cmd)
-        out = core.run_stmt(cur, sql)
+        sql = spell(sql)
+        out = core.run_stmt(cur if via == "plain" else dml_cur, sql)
         if not out["ok"]:
-            env.witness(f"C04/{cmd}/rejected/{out['exc']['cls']}", f"{sql} -> {out['exc']}")
+            env.witness(f"C04/{cmd}/rejected/{out['exc']['cls']}" + ("" if via == "plain" else "/qualified-target"), f"{sql} -> {out['exc']}")
             return
         if affected == 0:
             env.count("affected_zero")
@@ -231,6 +252,14 @@ def run_case(case: dict, env: core.Env) -> None:
                 f"{sql}: extra {dict(got_ms - exp_ms)} missing {dict(exp_ms - got_ms)}"[:1200],
             )
             return
+        if via != "plain":
+            decoys = raw.execute("select (select count(*) from DB1.S2.T), (select count(*) from DB1.S2.SRC), (select count(*) from DB1.S2.BY)").fetchall()
+            if decoys != [(1, 1, 1)]:
+                env.witness(f"C04/{cmd}/same-named-table-of-the-current-schema-changed", f"{sql}: row counts of DB1.S2.T/SRC/BY now {decoys}")
+                for name in ("T", "SRC", "BY"):
+                    raw.execute(f"delete from DB1.S2.{name}")
+                    raw.execute(f"insert into DB1.S2.{name} (A) values (424242)")
+                return
         env.count("cmp_bystander")
         if models.multiset(_read(raw, "BY")) != by_ms or models.multiset(_read(raw, "SRC")) != models.multiset(src):
             env.witness(f"C04/{cmd}/bystander-changed", sql)
